@@ -90,6 +90,7 @@ def run(ctx):
     res = lib.validate_parallel(MOD, [c[0] for c in chunks], jobs=4 if q else 8, timeout=1500, heap="3g")
     known_ids = {k["id"]: k for k in ctx.known}
     nconf = 0
+    seen = {}
     for (p, ok, r, at) in res:
         recs, execs = _executions(p)
         ctx.evaluations += len(recs)
@@ -104,6 +105,10 @@ def run(ctx):
                                                  "maxView", "minTang", "maxTang", "minTof", "maxTof", "n")})
             for rec in ex[1:]:
                 ctx.nontrivial(_inrange_key(cfgr, rec))
+                k = (rec["e"], bool(rec.get("err")))
+                seen[k] = seen.get(k, 0) + 1
+            k = ("Config:" + cfgr["backing"], bool(cfgr.get("err") or cfgr.get("herr")))
+            seen[k] = seen.get(k, 0) + 1
         if at is not None or not ok:
             ctx.violation("trace not consumed (line %s)" % at, p)
             continue
@@ -123,6 +128,17 @@ def run(ctx):
                           % (len(newbad), first, json.dumps(recs[first - 1])[:260]), rp)
     if crashed and not ctx.violations:
         raise lib.ModelFailure(crashed)
+    if not ctx.replay and not ctx.violations:
+        # vacuity guard: the recording must contain every kind of call, accepted and (where out-of-range requests exist) refused
+        need = [(e, False) for e in ("SetBin", "SetSino", "SetView", "SetSegV", "SetSegS", "SetRel", "Fill", "FillFrom", "FillIter", "IterSet",
+                                     "IterCopy", "GetBin", "GetSino", "GetView", "GetSegV", "GetSegS", "GetRel", "CopyTo", "CloneMem", "Reopen",
+                                     "WriteToFile", "Config:stream", "Config:interfile", "Config:hdrstream", "Config:memory")]
+        need += [(e, True) for e in ("SetBin", "SetSino", "SetView", "SetSegV", "SetSegS", "GetBin", "GetSino", "GetView", "GetSegV", "GetSegS",
+                                     "Config:interfile", "Config:hdrstream")]
+        missing = [k for k in need if not seen.get(k)]
+        if missing:
+            raise lib.ModelFailure("recording is vacuous for %s" % missing)
+    ctx.extra["calls_by_kind"] = {"%s%s" % (k[0], "/refused" if k[1] else ""): v for k, v in sorted(seen.items())}
     ctx.extra["store_executions"] = nconf
     ctx.exhaustive = False
     ctx.assumptions = [
